@@ -30,6 +30,8 @@ pub struct SchedStats {
   pub max_tasks: u32,
   pub trace: Vec<u16>,
   pub starve_armed: bool,
+  /// tasks that were ready (runnable and not merely parked) at the latest decision
+  pub ready_now: u32,
 }
 
 pub type SchedShared = Rc<RefCell<SchedStats>>;
@@ -197,6 +199,8 @@ impl Scheduler for SimScheduler {
         ready.push(t.id());
       }
     }
+
+    self.shared.borrow_mut().ready_now = ready.len() as u32;
 
     // F1: spurious wake-up of a parked task, at a seeded rate.
     if !parked.is_empty() && (ready.is_empty() || (self.spurious_rate > 0 && (self.rng.next_u64() & 0xffff) < self.spurious_rate as u64)) {
